@@ -1175,13 +1175,65 @@ def e2e_webdav(ctx, bd, n):
                     except OSError:
                         pass
                 clean = snapshot(srv.root)
+        # PUT / DELETE / MKCOL with hostile request-targets: the url-path pipeline alone decides the object
+        wcfg = dict(flags=P_DEFAULT[0], lc=0, vh=("none",), aliases=[], urls=[b"/dav/a.txt", b"/dav/new.txt", b"/dav/col/", b"/dav/sub/b.txt", b"/dav/nd/"],
+                    prefixes=[b"/dav", b"/dav/sub", b"", b"/dav/col"])
+        wtargets = gen_targets(rng, wcfg, max(40, n // 3))
+        wcases = [{"cfg": "webdav", "host": auth, "target": t, "tr": "h1", "method": rng.choice([b"PUT", b"DELETE", b"MKCOL"])} for t in wtargets]
+        ml, err = e2e_model_static(wcfg, R, wcases)
+        if ml is None:
+            ctx.broken.append({"kind": "model-run", "names": ["url"], "log": (err or "")[-2000:]})
+            return
+        for c, (mline, pred) in zip(wcases, ml):
+            body = b"PUT-BODY" if c["method"] == b"PUT" else b""
+            extra = (b"Content-Length: %d\r\n" % len(body)) if c["method"] == b"PUT" else b""
+            try:
+                data, closed = e2e.h1_exchange(srv.port, [c["method"] + b" " + c["target"] + b" HTTP/1.1\r\nHost: " + auth + b"\r\n" + extra +
+                                                          b"Connection: close\r\n\r\n" + body], read_timeout=5.0)
+                rs = e2e.parse_responses(data, closed=closed)
+                status = rs[-1]["status"] if rs else None
+                rbody = rs[-1]["body"] if rs else b""
+            except (OSError, e2e.RespParseError):
+                status, rbody = None, b""
+            after = snapshot(srv.root)
+            changed = [x.encode() for x in snap_diff(clean, after)]
+            ctx.evaluations += 1
+            ctx.keys["e2e:webdav:%s:%s:%s:%s" % (c["method"].decode(), pred.split(" ")[0], status, "chg" if changed else "same")] += 1
+            ov = cv = None
+            outside = [x for x in changed if not (os.path.realpath(os.path.dirname(x)) + b"/").startswith(droot + b"/")]
+            if outside:
+                ov = "WebDAV %s changed a path outside the document root: %s" % (c["method"].decode(), outside[0].decode("latin-1"))
+            elif b"CANARY" in rbody:
+                ov = "canary content in WebDAV response"
+            elif changed:
+                pp = pred.split(" ")
+                if pp[0] != "path":
+                    cv = "model rejects (%s) but the tree changed: %s" % (pred, changed[0].decode("latin-1"))
+                else:
+                    mp = _norm(C.unhx(pp[1]))
+                    bad = [x for x in changed if not (_norm(x) == mp or _norm(x).startswith(mp + b"/") or mp.startswith(_norm(x) + b"/"))]
+                    if bad:
+                        cv = "changed %s, model path %s" % (bad[0].decode("latin-1"), mp.decode("latin-1"))
+            if ov or cv:
+                nor += 1 if ov else 0
+                ndis += 1 if cv else 0
+                e2e_report(ctx, "e2e-webdav", {"cfg": "webdav", "method": c["method"], "target": c["target"]}, mline, pred, (status, rbody, []), ov, cv)
+            if changed:
+                dav_plant(srv)
+                for x in outside:
+                    try:
+                        os.remove(x)
+                    except OSError:
+                        pass
+                clean = snapshot(srv.root)
+        ncases_extra = len(wcases)
         alive = srv.alive()
     rep = srv.sanitizer_report()
     if rep or not alive:
         ctx.violation("crash:e2e:webdav", "server crashed / sanitizer report in e2e config webdav",
                       {"property": ctx.pid, "kind": "sanitizer-or-crash", "correspondence": "e2e-webdav", "input": "webdav",
                        "stderr": (rep or srv.logs())[-4000:]}, found=True)
-    ctx.streams.append({"name": "e2e-webdav", "cases": len(cases), "disagreements": ndis, "oracle_hits": nor,
+    ctx.streams.append({"name": "e2e-webdav", "cases": len(cases) + ncases_extra, "disagreements": ndis, "oracle_hits": nor,
                         "wall_s": round(time.time() - t0, 2)})
 
 
@@ -1300,11 +1352,33 @@ def run_e2e(ctx, only=None):
 
 
 def replay_e2e(ctx, rep):
-    """re-run the recorded configuration (fresh server, same seed): the check's own verdict decides"""
-    cfg = rep.get("case", {}).get("cfg")
-    before = len(ctx.violations)
+    """static configurations: the recorded (host, target, transport) on a fresh server;
+    X-Sendfile / WebDAV / symlink configurations: the whole stream again (same seed)"""
+    case = rep.get("case", {})
+    cfgname = case.get("cfg")
+    cfgs = static_configs()
     ctx.model_ok = True
-    run_e2e(ctx, only=cfg)
+    if cfgname in cfgs and "host" in case:
+        bd, err = e2e.build_server()
+        cfg = cfgs[cfgname]
+        c = {"cfg": cfgname, "host": case["host"].encode("latin-1"), "target": case["target"].encode("latin-1"), "tr": case["tr"]}
+        srv = e2e.Server(bd, E2E_COMMON + cfg["conf"], modules=cfg["modules"])
+        plant(srv.root, BASE_FILES, BASE_CANARIES)
+        rootb = srv.root.encode()
+        ml, err = e2e_model_static(cfg, rootb, [c])
+        with srv:
+            obs = e2e_run_static(srv.port, [c], nthreads=1)
+        ov, cv = e2e_eval_static(ctx, cfgname, cfg, rootb, c, ml[0][0], ml[0][1], obs[0])
+        print("case  :", c)
+        print("model :", ml[0][1])
+        print("server:", obs[0][0], obs[0][1][:200])
+        print("oracle:", ov, "| correspondence:", cv)
+        if ov or cv or srv.sanitizer_report():
+            print("VIOLATION property=%s replay=(replayed)" % ctx.pid)
+            return 1
+        return 0
+    before = len(ctx.violations)
+    run_e2e(ctx, only=cfgname)
     for v in ctx.violations[before:]:
         print("  ", v[0], v[1])
     if len(ctx.violations) > before:
